@@ -931,6 +931,88 @@ pub fn ackstory(args: &[String]) -> i32 {
     0
 }
 
+/// C19 story "a retirement that has to wait": a reader holds its pin on an offloaded generation for seconds (a slow
+/// consumer), the key is deleted meanwhile (its retirement stays queued), and a handful of small writes go to OTHER keys
+/// - spread over all shards - without any flush.  2.5 s later a copy of the device file (a crash at that instant) is
+/// recovered: every one of those writes is there.  Sequential history over the probe keys only, judged by TraceStore.tla.
+pub fn pinstory(args: &[String]) -> i32 {
+    use std::sync::atomic::{AtomicBool, Ordering};
+    let o = Opts::parse(args);
+    let dir = o.get("dir").unwrap_or("/dev/shm").to_string();
+    std::fs::create_dir_all(&dir).ok();
+    crate::obs::set_cpus(o.num("cpus", 8));
+    crate::util::watchdog::start(o.num("watchdog", 60));
+    let cfg = Cfg { pers: true, ttl: false, cache: false, fmt: 3, lim: -1, blocks: 128 };
+    let cfgj = |c: &Cfg| json!({"pers": c.pers, "ttl": c.ttl, "cache": c.cache, "fmt": c.fmt, "lim": c.lim});
+    let now = 1_000 * E9;
+    feoxdb::verif::set_now(now);
+    let path = format!("{dir}/pin_{}.feox", std::process::id());
+    let copy = format!("{dir}/pin_{}_copy.feox", std::process::id());
+    let _ = std::fs::remove_file(&path);
+    let nprobe: usize = o.num("probes", 24);
+    let keys: Vec<Vec<u8>> = (0..nprobe).map(|i| format!("probe{i:02}").into_bytes()).collect();
+    let victim = b"zz-victim".to_vec();
+    let store = Arc::new(build_store(&cfg, &path).expect("build store"));
+    let mut vals = ValTable::new();
+    let mut evs: Vec<Value> = Vec::new();
+    store.insert(&victim, &vec![b'V'; 5000]).expect("insert victim");
+    store.flush().expect("flush victim");
+    evs.push(json!({"e": "reset", "cfg": cfgj(&cfg), "now": limbs(now), "overhead": FeoxStore::verif_record_overhead(),
+        "klen": keys.iter().map(|k| k.len()).collect::<Vec<_>>(), "post": post_state(&store, &keys)}));
+    static PINNED: AtomicBool = AtomicBool::new(false);
+    let vk = victim.clone();
+    feoxdb::verif::install(Box::new(move |_seq, ev| {
+        if ev.kind == "pin" && ev.key == vk.as_slice() && !PINNED.swap(true, Ordering::SeqCst) {
+            std::thread::sleep(std::time::Duration::from_millis(3300));
+        }
+    }));
+    let s2 = store.clone();
+    let v2 = victim.clone();
+    let reader = std::thread::spawn(move || s2.get(&v2).map(|v| v.len()));
+    let t0 = std::time::Instant::now();
+    while !PINNED.load(Ordering::SeqCst) && t0.elapsed().as_millis() < 2000 {
+        std::thread::sleep(std::time::Duration::from_micros(200));
+    }
+    let pinned = PINNED.load(Ordering::SeqCst);
+    let _ = store.delete(&victim);
+    std::thread::sleep(std::time::Duration::from_millis(350));
+    for (i, k) in keys.iter().enumerate() {
+        let val = vec![b'p'; 60 + i];
+        let mut ev = call_event("insert", i + 1);
+        let r = store.insert(k, &val);
+        ev["v"] = vals.val(&val);
+        ev["res"] = match &r { Ok(b) => res("bool", *b as i64, noval(), 0), Err(e) => res_err(e) };
+        ev["now"] = json!(limbs(now));
+        ev["post"] = post_state(&store, &keys);
+        evs.push(ev);
+    }
+    let t1 = std::time::Instant::now();
+    while t1.elapsed().as_millis() < 2500 {
+        crate::util::watchdog::beat("pinstory: waiting for the write-behind");
+        std::thread::sleep(std::time::Duration::from_millis(100));
+    }
+    std::fs::copy(&path, &copy).expect("copy device file");
+    let still_pinned = !reader.is_finished();
+    let _ = reader.join();
+    feoxdb::verif::uninstall();
+    match build_store(&cfg, &copy) {
+        Ok(s) => {
+            evs.push(json!({"e": "reopen", "cfg": cfgj(&cfg), "now": limbs(now), "post": post_state(&s, &keys)}));
+            std::mem::forget(s);
+        }
+        Err(e) => evs.push(json!({"e": "reopen_fail", "err": crate::util::err_name(&e)})),
+    }
+    let mut out = std::io::BufWriter::new(std::fs::File::create(o.req("out")).expect("create out"));
+    for e in &evs { writeln!(out, "{}", e).unwrap(); }
+    out.flush().unwrap();
+    if let Ok(s) = Arc::try_unwrap(store) { std::mem::forget(s); }
+    let _ = std::fs::remove_file(&path);
+    let _ = std::fs::remove_file(&copy);
+    println!("{}", json!({"events": evs.len(), "pinned": pinned, "still_pinned_at_copy": still_pinned}));
+    if !pinned || !still_pinned { return 3; }
+    0
+}
+
 thread_local!(static STORY_VICTIM_ALLOCATED: std::cell::Cell<bool> = const { std::cell::Cell::new(false) });
 
 /// C09/C02 story "failed batch next to an acknowledged one": a retired two-block extent [s, s+1] leaves
